@@ -23,7 +23,7 @@ from .c05 import gen_text
 REPLAY_BY_RERUN = True  # workloads are deterministic in (tier, seed, shard): replay re-runs the shard
 SHARDS = {"quick": 8, "thorough": 16}
 TIMEOUT = {"quick": 900, "thorough": 3600}
-N_HIST = {"quick": 2, "thorough": 24}  # per configuration per shard (56 configurations)
+N_HIST = {"quick": 8, "thorough": 24}  # per configuration per shard (56 configurations)
 
 ENCODINGS = [None, "utf-8", "utf-16", "latin-1"]
 DIALECTS = [
@@ -163,7 +163,20 @@ def run_history(res, c, scratch, rng):
                     op["p"] = gen_nasty_spec(rng, c, res)
                 elif op["op"] == "insert_multiple":
                     op["ps"] = [gen_nasty_spec(rng, c, res) for _ in op["ps"]]
+                unenc = False
+                if op["op"] == "insert" and c["encoding"] == "latin-1" and rng.random() < 0.15:
+                    # text outside the encoding's repertoire: the insert must fail (and change nothing) - it must not
+                    # "succeed" with different characters in the file
+                    op["p"] = dict(op["p"], tags=dict(op["p"].get("tags") or {}, k=rng.choice(["10 \u20ac", "\u4e2d", "a\u2013b"])))
+                    unenc = True
+                    res.count("unencodable_inserts")
                 out = s.do(op)
+                if unenc and isinstance(out.exc, UnicodeError):
+                    res.count("unencodable_inserts_rejected")
+                    s.model.points = [q_.copy() for q_ in twin.model.points]
+                    if c["flush"] and not compare(dict(op, then="rejected: text not encodable")):
+                        return
+                    continue
                 tout = twin.do(op)
                 res.count(f"ops.{op['op']}")
                 if op.get("compact"):
